@@ -5,8 +5,31 @@ import random
 TF_UNITS = {"S": 1, "T": 60, "H": 3600, "D": 86400}
 TF_MULTS = [1, 2, 3, 5, 7, 10, 15, 30, 45]
 
-PRICE_STYLES = ["walk", "walk", "walk", "ints", "flat", "rising", "falling", "zerovol", "zerovol", "allzerovol", "repeat", "big", "small", "jumpy", "gappy"]
+PRICE_STYLES = ["walk", "walk", "walk", "ints", "flat", "rising", "falling", "zerovol", "zerovol", "allzerovol", "repeat", "big", "small", "jumpy", "gappy",
+                "shock", "grid", "onedge", "fine", "quiet"]
 TS_STYLES = ["regular", "regular", "dups", "gaps", "biggaps", "mixed", "mixed", "phase"]
+
+
+# price styles that stress a particular indicator (crossed channel bands, exact ties, oscillators pinned to 0/100, values finer
+# than the rounding, untraded stretches); used with some probability by the per-indicator generators of the tie and the oracles
+KIND_STYLES = {
+    "SUPERTREND": ["shock", "shock", "jumpy"], "KC": ["shock", "flat"], "ATR": ["shock", "grid"], "TR": ["grid", "gappy"],
+    "STOCH": ["onedge", "onedge", "grid", "flat"], "RSI": ["onedge", "rising", "falling", "flat"], "AROON": ["grid", "onedge", "falling", "rising"],
+    "ADX": ["grid", "grid", "shock", "onedge"], "DONCHIAN": ["fine", "grid"], "HIGHESTLOWEST": ["fine", "grid"], "HL": ["fine", "grid"],
+    "VWAP": ["zerovol", "grid", "allzerovol"], "OBV": ["grid", "repeat", "zerovol"], "VWMA": ["zerovol", "allzerovol", "grid"],
+    "TSI": ["flat", "repeat", "onedge", "grid"], "MACD": ["flat", "fine", "repeat"], "ROC": ["grid", "small"], "EMA": ["fine", "flat"],
+    "SMA": ["fine", "flat"], "RMA": ["fine", "flat"], "WMA": ["fine"], "HMA": ["fine", "flat"], "STANDARDDEVIATION": ["flat", "repeat", "fine"],
+    "STDEV": ["flat", "repeat", "fine"], "BBANDS": ["flat", "repeat", "fine"], "STANDARDDEVIATIONTHRESHOLD": ["repeat", "grid"],
+    "STDEVTHRES": ["repeat", "grid"], "COUNTER": ["grid", "repeat"],
+}
+
+
+def style_for(rng, kind, prob=0.3):
+    """a stressing price style for this indicator kind with probability `prob`, else None (= any style)"""
+    styles = KIND_STYLES.get(str(kind).upper())
+    if styles and rng.random() < prob:
+        return rng.choice(styles)
+    return None
 
 
 def rng_for(seed, *path):
@@ -40,8 +63,76 @@ def gen_prices(rng, n, style=None):
             out.append((o, h, l, c, rng.randint(0, 1000)))
             p = c
         return out, style
+    if style == "grid":
+        # coarse tick grid: many exact ties (equal highs/lows, symmetric outside bars, close on the high/low, repeated volumes)
+        tick = rng.choice([0.25, 0.5, 1, 0.125])
+        p = tick * rng.randint(80, 400)
+        for _ in range(n):
+            o = p
+            c = max(tick, p + tick * rng.choice([-2, -1, -1, 0, 0, 0, 1, 1, 2]))
+            h = max(o, c) + tick * rng.choice([0, 0, 1, 1, 2])
+            l = max(tick, min(o, c) - tick * rng.choice([0, 0, 1, 1, 2]))
+            l = min(l, o, c)
+            out.append((o, h, l, c, rng.choice([0, 100, 100, 200, 300])))
+            p = c
+        return out, style
+    if style == "shock":
+        # trending regimes with occasional very wide candles that close near their open (stored channel bands can cross)
+        p = round(100.0 * rng.uniform(0.5, 2.0), 2)
+        drift = rng.choice([-0.012, 0.0, 0.012])
+        for i in range(n):
+            if rng.random() < 0.08:
+                drift = rng.choice([-0.012, -0.012, 0.0, 0.012])
+            o = p
+            kick = rng.uniform(-0.05, 0.05) if (out and out[-1][1] - out[-1][2] > 0.03 * p) else 0.0   # rebound / follow-through after a wide candle
+            c = round(max(p * (1 + drift + kick + rng.gauss(0, 0.004)), 0.05), 2)
+            wide = rng.random() < 0.12
+            side = rng.choice(["up", "up", "down", "down", "both"]) if wide else ""
+            up = rng.uniform(0.03, 0.35) if side in ("up", "both") else abs(rng.gauss(0, 0.003))
+            dn = rng.uniform(0.03, 0.35) if side in ("down", "both") else abs(rng.gauss(0, 0.003))
+            h = max(round(max(o, c) * (1 + up), 2), o, c)
+            l = min(max(round(min(o, c) * (1 - dn), 2), 0.01), o, c)
+            out.append((o, h, l, c, rng.randint(0, 2000)))
+            p = c
+        return out, style
+    if style == "quiet":
+        # untraded moments: flat zero-volume candles (o=h=l=c) scattered through a market that opens away from the previous close
+        p = round(100.0 * rng.uniform(0.5, 2.0), 2)
+        for i in range(n):
+            if rng.random() < 0.35:
+                out.append((p, p, p, p, 0))
+                continue
+            o = round(max(p * (1 + rng.choice([-0.02, -0.005, 0.0, 0.005, 0.02])), 0.05), 2)
+            c = round(max(o * (1 + rng.gauss(0, 0.01)), 0.05), 2)
+            h = max(round(max(o, c) * (1 + abs(rng.gauss(0, 0.004))), 2), o, c)
+            l = min(max(round(min(o, c) * (1 - abs(rng.gauss(0, 0.004))), 2), 0.01), o, c)
+            out.append((o, h, l, c, rng.randint(0, 2000)))
+            p = c
+        return out, style
+    if style == "onedge":
+        # runs of candles closing exactly on their low (sell-off) or high (rally): oscillators sit exactly on 0 / 100
+        p = round(100.0 * rng.uniform(0.5, 2.0), 2)
+        mode = rng.choice(["low", "high"])
+        for i in range(n):
+            if rng.random() < 0.1:
+                mode = rng.choice(["low", "high", "mid"])
+            o = p
+            step = round(abs(rng.gauss(0, 0.6)) + 0.01, 2)
+            if mode == "low":
+                c = round(max(o - step, 0.05), 2)
+                l, h = c, round(o + abs(rng.gauss(0, 0.2)), 2)
+            elif mode == "high":
+                c = round(o + step, 2)
+                h, l = c, round(max(o - abs(rng.gauss(0, 0.2)), 0.02), 2)
+            else:
+                c = round(max(o + rng.gauss(0, 0.5), 0.05), 2)
+                h, l = round(max(o, c) + 0.1, 2), round(max(min(o, c) - 0.1, 0.01), 2)
+            h, l = max(h, o, c), min(l, o, c)
+            out.append((o, h, l, c, rng.randint(0, 2000)))
+            p = c
+        return out, style
     scale = {"big": 1e5, "small": 0.05}.get(style, 100.0)
-    dec = 4 if style == "small" else 2
+    dec = 4 if style == "small" else 6 if style == "fine" else 2   # fine: more decimals than any round_value in use
     p = round(scale * rng.uniform(0.5, 2.0), dec)
     prev = None
     for i in range(n):
